@@ -67,13 +67,14 @@ OFFS = [-2000, -10, -1, 0, 1, 50, 100, 174, 175, 176, 200, 300, 349, 350, 351, 4
 
 
 def gen_scenario(rng, idx):
-    kind = rng.choices(["inject", "peer", "twice", "quiet"], [60, 20, 8, 12])[0]
+    kind = rng.choices(["inject", "peer", "twice", "quiet", "reuse"], [54, 18, 8, 10, 10])[0]
     inst = rng.choice(INSTANCES)
     type_ = rng.choice(TYPES)
     v4 = rng.sample(V4, rng.choice([0, 1, 1, 2]))
     v6 = rng.sample(V6, rng.choice([0, 0, 1, 2]))
-    # server=None (legacy: host name := instance name) only where no rename can happen, see notes/agents/C09.md
-    sc = {"kind": kind, "idx": idx, "type": type_, "inst": inst, "server": rng.choice(["hosta.local.", "HostA.local."] + ([None] if kind == "quiet" else [])),
+    # server=None is the legacy mode (host name := instance name); with a rename it shows the known finding
+    # C09:server-none-keeps-conflicting-host-name (known_findings.json, notes/agents/C09.md)
+    sc = {"kind": kind, "idx": idx, "type": type_, "inst": inst, "server": rng.choice(["hosta.local.", "HostA.local.", "hosta.local.", "HostA.local.", None]),
           "port": rng.choice([80, 8080, 0, 65535]), "text": rng.choice(["", "0361 3d31".replace(" ", ""), "00"]),
           "v4": v4, "v6": v6, "host_ttl": rng.choice([120, 120, 1, 4500, 10]), "other_ttl": rng.choice([4500, 4500, 1125, 10, 1]),
           "ttl_arg": rng.choice([None, None, None, 60]), "allow": rng.random() < 0.7, "pre": [], "inj": [],
@@ -110,6 +111,20 @@ def gen_scenario(rng, idx):
             sc["inj"].append({"at": rng.randint(-20, 900), "alias": "other%d.%s" % (rng.randint(0, 3), type_), "ttl": 4500})
     if kind == "peer":
         sc["peer_chain"] = rng.choice([1, 1, 2, 3])
+    if kind == "reuse":
+        # the same ServiceInfo object: registered, unregistered, then -- while a peer's pointer for the old name is cached --
+        # registered again; mostly hosts with a single address family (the NSEC record is built from the instance name)
+        fam = rng.choice(["v4", "v4", "v6", "v6", "both", "none"])
+        sc["v4"] = rng.sample(V4, rng.choice([1, 2])) if fam in ("v4", "both") else []
+        sc["v6"] = rng.sample(V6, rng.choice([1, 2])) if fam in ("v6", "both") else []
+        sc["allow"] = rng.random() < 0.85
+        sc["unreg_at"] = rng.choice([900, 1000, 1500])
+        sc["reuse_at"] = sc["unreg_at"] + rng.choice([300, 1000, 2000])
+        if rng.random() < 0.85:
+            for n in range(1, rng.choice([1, 1, 2, 3]) + 1):
+                sc["inj"].append({"at": sc["unreg_at"] + 260 + rng.randint(0, 30), "alias": name(n), "ttl": 4500})
+        if rng.random() < 0.3:
+            sc["inj"].append({"at": sc["reuse_at"] + rng.choice(OFFS[3:]), "alias": alias_choice(), "ttl": 4500})
     return sc
 
 
@@ -286,12 +301,19 @@ def run_scenario(sc):
             rt2 = asyncio.ensure_future(scenario_register(info2))
             await rt2
         await rt
-        await sim.sleep_until(t0 + 9000)
+        if sc["kind"] == "reuse":
+            await sim.sleep_until(t0 + sc["unreg_at"])
+            if results and results[0][0] == "ok":
+                gt = await za.async_unregister_service(info)
+                await gt
+            await sim.sleep_until(t0 + sc["reuse_at"])
+            await scenario_register(info)
+        await sim.sleep_until(t0 + 12000)
         obs["t0"] = t0
         obs["zc"] = id(za)
         obs["reg"] = id(za.registry)
         obs["results"] = results
-        obs["infos"] = [id(info)] + ([id(info2)] if info2 is not None else [])
+        obs["infos"] = [id(info)] + ([id(info2)] if info2 is not None else []) + ([id(info)] if sc["kind"] == "reuse" else [])
         obs["info_fields"] = info_fields(info)
         obs["registry"] = {"services": sorted(za.registry._services), "types": {k: list(v) for k, v in za.registry.types.items()},
                            "servers": {k: list(v) for k, v in za.registry.servers.items()}}
@@ -349,13 +371,16 @@ def blocks_of(obs, which=0):
     return calls
 
 
-def announcements_of(obs, info_id):
+def announcements_of(obs, info_id, t_from=None, t_to=None):
     """[(t, [datagrams])] of the positive-TTL broadcasts of one info: the datagrams of the async_send call that follows
     each generate_service_broadcast(info, None)"""
     out = []
     state = None  # None | "armed" (broadcast generated, waiting for its async_send) | "open" (collecting its datagrams)
     for e in obs["ev"]:
         if e[2] != obs["zc"]:
+            continue
+        if (t_from is not None and e[1] < t_from) or (t_to is not None and e[1] >= t_to):
+            state = None
             continue
         if e[0] == "bcast":
             state = "armed" if (e[3] == info_id and e[4] is None) else None
@@ -380,18 +405,25 @@ def announcements_of(obs, info_id):
 def svc_tokens(sc, name, ttl_arg):
     host_ttl = sc["host_ttl"] if ttl_arg is None else ttl_arg
     other_ttl = sc["other_ttl"] if ttl_arg is None else ttl_arg
-    server = sc["server"] or name
+    # server=None: set_server_if_missing copies the name the info had at its first registration
+    server = sc["server"] or "%s.%s" % (sc["inst"], sc["type"])
     return "%s %s %s %d 0 0 %s %d %s %d %s %d %d" % (
         C.hs(sc["type"]), C.hs(name), C.hs(server), sc["port"], C.hx(bytes.fromhex(sc["text"])),
         len(sc["v4"]), " ".join(sc["v4"]), len(sc["v6"]), " ".join(sc["v6"]), host_ttl, other_ttl)
 
 
-def invalid_names(sc, upto):
+def start_inst(sc, call):
+    """instance_name_from_service_info at the start of a call: the info's current name without the type"""
+    return call["blocks"][0]["name"][: -len(sc["type"]) - 1]
+
+
+def invalid_names(sc, upto, inst=None):
     from zeroconf._utils.name import service_type_name
 
+    inst = sc["inst"] if inst is None else inst
     bad = []
     for n in range(2, upto + 1):
-        nm = "%s-%d.%s" % (sc["inst"], n, sc["type"])
+        nm = "%s-%d.%s" % (inst, n, sc["type"])
         try:
             service_type_name(nm, strict=True)
         except Exception:  # noqa: BLE001
@@ -401,10 +433,11 @@ def invalid_names(sc, upto):
 
 def model_line(sc, call, port=None):
     blocks = call["blocks"]
-    name0 = "%s.%s" % (sc["inst"], sc["type"])
+    name0 = blocks[0]["name"]
+    inst = start_inst(sc, call)
     upto = max(len(b["bucket"]) for b in blocks) + len(blocks) + 4
-    bad = invalid_names(sc, upto)
-    toks = [svc_tokens(dict(sc, port=sc["port"] if port is None else port), name0, sc["ttl_arg"]), C.hs(sc["inst"]), C.b01(sc["allow"]),
+    bad = invalid_names(sc, upto, inst)
+    toks = [svc_tokens(dict(sc, port=sc["port"] if port is None else port), name0, sc["ttl_arg"]), C.hs(inst), C.b01(sc["allow"]),
             str(len(bad))] + [C.hs(b) for b in bad]
     for i, b in enumerate(blocks):
         if i == 1:
@@ -453,7 +486,10 @@ def oracle(sc, obs, res, case):
     abandoned_by_call = {}
     for ci, call in enumerate(calls):
         info_id = obs["infos"][ci] if ci < len(obs["infos"]) else None
-        name0 = "%s.%s" % (sc["inst"], sc["type"])
+        name0 = call["blocks"][0]["name"]
+        inst = start_inst(sc, call)
+        t_from = call["blocks"][0]["now"]
+        t_to = calls[ci + 1]["blocks"][0]["now"] if ci + 1 < len(calls) else None
         # ---- every datagram of the check is a probe: QU PTR question for the type, proposed pointer in the authority section
         probes = []  # (t, proposed name)
         for b in call["blocks"]:
@@ -483,10 +519,10 @@ def oracle(sc, obs, res, case):
                     # first free "-N" above everything tried so far
                     n = max(2, suffix_used + 1)
                     trail = [cur]
-                    bad = set(invalid_names(sc, n + len(taken) + 2))
+                    bad = set(invalid_names(sc, n + len(taken) + 2, inst))
                     want = None
                     while True:
-                        cand = "%s-%d.%s" % (sc["inst"], n, sc["type"])
+                        cand = "%s-%d.%s" % (inst, n, sc["type"])
                         if cand in bad:
                             break  # not a valid service name (instance label over 63 bytes): registration must fail
                         if cand not in taken:
@@ -527,7 +563,7 @@ def oracle(sc, obs, res, case):
                 if na == nb and tb - ta != CHECK and not (tb - ta < CHECK and False):
                     # a restart (i := 0) for the same name cannot happen: the name changes at every restart
                     viol.append(("C09:probe-gap", "consecutive probes for one name %d ms apart" % (tb - ta)))
-            ann = announcements_of(obs, info_id) if info_id is not None else []
+            ann = announcements_of(obs, info_id, t_from, t_to) if info_id is not None else []
             registered = any(e[0] == "regadd" and e[2] == obs["reg"] and e[3] == fin and e[1] == call["t_end"] for e in obs["ev"])
             if registered:
                 Tl = probes[-1][0] if probes else call["t_end"]
@@ -538,14 +574,14 @@ def oracle(sc, obs, res, case):
                     if len(dgs) != 1:
                         viol.append(("C09:announce-datagrams", "an announcement was %d datagrams" % len(dgs)))
                         continue
-                    v = check_announcement(dict(sc, port=sc["port"] if ci == 0 else (sc["port"] + 1) % 65536), obs, fin, dgs[0])
+                    v = check_announcement(dict(sc, port=sc["port"] if (ci == 0 or sc["kind"] != "twice") else (sc["port"] + 1) % 65536), obs, fin, dgs[0])
                     if v:
                         viol.append(v)
         else:
             # failed registration: nothing is ever announced for this info
-            if info_id is not None and announcements_of(obs, info_id):
+            if info_id is not None and announcements_of(obs, info_id, t_from, t_to):
                 viol.append(("C09:announced-after-failure", "a failed registration was announced"))
-            if any(e[0] == "regadd" and e[2] == obs["reg"] and e[1] >= call["blocks"][0]["now"] and e[1] <= call["t_end"] for e in obs["ev"]) and ci == 0:
+            if any(e[0] == "regadd" and e[2] == obs["reg"] and e[1] >= call["blocks"][0]["now"] and e[1] <= call["t_end"] for e in obs["ev"]) and (ci == 0 or sc["kind"] == "reuse"):
                 viol.append(("C09:registered-after-failure", "a failed registration reached the registry"))
     # ---- the conflicting name is never announced or answered for: any response datagram of the host, from the start of the
     # registration that met the conflict until the next registration starts (a later registration may obtain a name that has
@@ -554,17 +590,26 @@ def oracle(sc, obs, res, case):
         lo = call["blocks"][0]["now"]
         hi = calls[ci + 1]["blocks"][0]["now"] if ci + 1 < len(calls) else None
         ab = abandoned_by_call.get(ci, set())
-        own = {c["final_name"] for c in calls[:ci] if c["outcome"] == "ok"}  # names this host itself holds from earlier registrations
+        # names this host itself holds from earlier registrations (none when the earlier registration was withdrawn again)
+        own = set() if sc["kind"] == "reuse" else {c["final_name"] for c in calls[:ci] if c["outcome"] == "ok"}
+        legacy_host = None if sc["server"] else "%s.%s" % (sc["inst"], sc["type"])
         for k, (t, d) in enumerate(all_sends):
             if t < lo or (hi is not None and t >= hi):
                 continue
             m, an, au, ad = decode(d)
             if m.is_query():
                 continue
+            from zeroconf import _dns as _d
+
             for r in an + au + ad:
                 for nm in (r.name, getattr(r, "alias", None)):
                     if r.ttl > 0 and nm in ab and nm not in own:
-                        viol.append(("C09:conflicting-name-sent", "a response carries the conflicting name %r" % (nm,)))
+                        if isinstance(r, _d.DNSAddress) and nm == legacy_host and nm == r.name:
+                            # KNOWN FINDING: server=None made the first instance name the host name; a rename does not move it
+                            viol.append(("C09:server-none-keeps-conflicting-host-name",
+                                         "legacy server=None: after the rename the address records are still announced under the conflicting instance name %r" % (nm,)))
+                        else:
+                            viol.append(("C09:conflicting-name-sent", "a %s record carries the conflicting name %r" % (type(r).__name__, nm)))
     # ---- one instance never holds the same name twice
     reg = obs["registry"]
     if len(set(reg["services"])) != len(reg["services"]):
@@ -574,7 +619,7 @@ def oracle(sc, obs, res, case):
             if len(set(v)) != len(v):
                 viol.append(("C09:registry-index-duplicate", "registry index %s lists a name twice" % idx))
     oks = [r for r in obs["results"] if r[0] == "ok"]
-    if len({r[1].lower() for r in oks}) != len(oks):
+    if sc["kind"] != "reuse" and len({r[1].lower() for r in oks}) != len(oks):
         viol.append(("C09:same-name-registered-twice", "two registrations of one instance completed under the same name"))
     seen = set()
     for sig, what in viol:
@@ -594,7 +639,7 @@ def check_announcement(sc, obs, name, data):
     f = obs["info_fields"]
     host_ttl = f["host_ttl"]
     other_ttl = f["other_ttl"]
-    server = f["server"] if sc["server"] else name
+    server = f["server"]  # with server=None: the name the info had when it was first registered (see the known finding)
     want = []
     want.append(("ptr", sc["type"], const._TYPE_PTR, False, other_ttl, name))
     want.append(("srv", name, const._TYPE_SRV, True, host_ttl, (sc["port"], server)))
@@ -649,7 +694,7 @@ def evaluate(sc, res, lines, pending):
                tuple(b["now"] - obs["t0"] for b in call["blocks"][:6]))
         if len(call["blocks"]) > 3 or call["outcome"] != "ok" or renamed:
             res.nontriv(key)
-        port = None if ci == 0 else (sc["port"] + 1) % 65536
+        port = None if (ci == 0 or sc["kind"] != "twice") else (sc["port"] + 1) % 65536
         lines.append(model_line(sc, call, port))
         pending.append((sc, obs, call, ci))
     oracle(sc, obs, res, case)
@@ -658,6 +703,20 @@ def evaluate(sc, res, lines, pending):
                     "blocks": [[b["now"] - obs["t0"], len(b["sends"]), list(b["end"])] for c in calls for b in c["blocks"]],
                     "results": obs["results"]})
     return obs
+
+
+def calls_of_obs(obs):
+    if "_calls" not in obs:
+        obs["_calls"] = blocks_of(obs)
+    return obs["_calls"]
+
+
+def next_call_start(obs, call):
+    cs = calls_of_obs(obs)
+    for i, c in enumerate(cs):
+        if c["blocks"][0]["now"] == call["blocks"][0]["now"] and c["t_end"] == call["t_end"]:
+            return cs[i + 1]["blocks"][0]["now"] if i + 1 < len(cs) else None
+    return None
 
 
 def compare(res, pending, model):
@@ -681,7 +740,7 @@ def compare(res, pending, model):
         if ok and (len(tail) < 3 or tail[1] != want_phase or tail[2] != C.hs(call["final_name"])):
             ok = False
         if ok and call["outcome"] == "ok" and ci < len(obs["infos"]):
-            ann = announcements_of(obs, obs["infos"][ci])
+            ann = announcements_of(obs, obs["infos"][ci], call["blocks"][0]["now"], next_call_start(obs, call))
             registered = any(e[0] == "regadd" and e[2] == obs["reg"] and e[1] == call["t_end"] and e[3] == call["final_name"] for e in obs["ev"])
             if registered:
                 got = ";".join("%d@%s" % (t, ";".join(pkt_canon(d) for d in dgs)) for t, dgs in ann)
